@@ -119,6 +119,8 @@ macro "keeps_a" : tactic => `(tactic| repeat' (first
   | exact Keeps.pure _
   | exact Keeps.raise _
   | exact Keeps.read _
+  | exact Keeps.liftE _
+  | (apply Keeps.bind_liftE; intro _ _)
   | exact KeepsOpt.none
   | apply KeepsOpt.some
   | (simp only [keepsAuth]; done)
@@ -148,13 +150,7 @@ attribute [keepsAuth] popVal_pre
 @[keepsAuth] theorem popNum_a : Keeps PreAuth popNum := by unfold popNum; keeps_a
 @[keepsAuth] theorem popAuthGen_a : Keeps PreAuth popAuthGen := by unfold popAuthGen; keeps_a
 @[keepsAuth] theorem popAuthVerify_a : Keeps PreAuth popAuthVerify := by unfold popAuthVerify; keeps_a
-@[keepsAuth] theorem getPayload_a (m pt e) : Keeps PreAuth (getPayload m pt e) := by unfold getPayload; keeps_a
-@[keepsAuth] theorem illTyped_a {α} : Keeps PreAuth (illTyped : HM α) := by unfold illTyped; keeps_a
-@[keepsAuth] theorem saOf_a (p) : Keeps PreAuth (saOf p) := by unfold saOf; keeps_a
-@[keepsAuth] theorem keOf_a (p) : Keeps PreAuth (keOf p) := by unfold keOf; keeps_a
-@[keepsAuth] theorem nonceOf_a (p) : Keeps PreAuth (nonceOf p) := by unfold nonceOf; keeps_a
-@[keepsAuth] theorem tsBodyOf_a (p) : Keeps PreAuth (tsBodyOf p) := by unfold tsBodyOf; keeps_a
-@[keepsAuth] theorem idOf_a (p) : Keeps PreAuth (idOf p) := by unfold idOf; keeps_a
+@[keepsAuth] theorem getPayload_a (m pt e) : Keeps PreAuth (getPayload m pt e) := Keeps.liftE _
 @[keepsAuth] theorem abortOnErrorNotifies_a (m e i) : Keeps PreAuth (abortOnErrorNotifies m e i) := by
   unfold abortOnErrorNotifies; keeps_a
 @[keepsAuth] theorem getMe_a : Keeps PreAuth getMe := by unfold getMe; keeps_a
@@ -180,6 +176,8 @@ macro "keeps_a2" : tactic => `(tactic| repeat' (first
   | exact Keeps.pure _
   | exact Keeps.raise _
   | exact Keeps.read _
+  | exact Keeps.liftE _
+  | (apply Keeps.bind_liftE; intro _ _)
   | exact KeepsOpt.none
   | apply KeepsOpt.some
   | (simp only [keepsAuth]; done)
